@@ -7,16 +7,26 @@
    (that is C07's property). Only statements; proofs live in Proofs/PsetBlind.v. *)
 From Coq Require Import List NArith ZArith Bool Lia Permutation.
 From Coq.Strings Require Import Byte.
-From EV Require Import Base.Bytes Base.Zn Base.FreeMod Model.Script Model.Ideal Model.Verify Model.Blind Model.PsetBlind
+From EV Require Import Base.Bytes Base.Zn Base.FreeMod Gen.Tables Model.Script Model.Ideal Model.Verify Model.Blind Model.PsetBlind
   Proofs.Ideal Proofs.Verify Proofs.Blind Proofs.PsetBlind Props.C04.
 Import ListNotations.
 Open Scope Z_scope.
+
+(* The surjection domain. Every output a party blinds gets a surjection proof (Asset::blind) over that party's surjection targets
+   `party_tg ins sec` (surjection_inputs: one entry per input — the party's own secrets or the UTXO's asset — and one per
+   non-null issuance / inflation-keys amount). For every party this list has as many entries as `all_ss ins SS` (the secrets of
+   all inputs with the issuance pseudo-inputs), so the size limit of Asset::blind (SURJECTIONPROOF_MAX_N_INPUTS, C04) is one
+   premise on the PSET, the same for all parties: `N.of_nat (length (all_ss ins SS)) <= CT_SURJECTIONPROOF_MAX_N_INPUTS`. *)
+Theorem C09_party_domain_size : forall (ins : list pin) (SS : list secrets) (utxos : list txout),
+  Forall3 in_ok ins SS utxos -> forall sec, sec_ok SS sec -> length (party_tg ins sec) = length (all_ss ins SS).
+Proof. exact party_tg_length. Qed.
 
 (* after a non-last blinder that blinded at least one output, the scalar appended to the PSET is
    Σ_{its inputs} (v·abf + vbf) − Σ_{the outputs it blinded} (v·abf + vbf)  (mod n), the output factors being the reported ones *)
 Theorem C09_scalar_meaning : forall (pubk : Z -> Z) (ecdh : Z -> Z -> Z) (p : profile)
   (ins : list pin) (SS : list secrets) (utxos : list txout),
   Forall3 in_ok ins SS utxos -> issuances_unblinded ins ->
+  (N.of_nat (length (all_ss ins SS)) <= CT_SURJECTIONPROOF_MAX_N_INPUTS)%N ->
   forall ps sec rnd, ps_in ps = ins -> sec_ok SS sec -> indices_ok (length ins) (ps_out ps) ->
   (forall i, In i (owned_idx sec (ps_out ps) 0) -> exists o, nth_error (ps_out ps) i = Some o /\ pgood (party_tg ins sec) o) ->
   (3 * length (owned_idx sec (ps_out ps) 0) <= length rnd)%nat -> Forall in_zn rnd -> owned_idx sec (ps_out ps) 0 <> [] ->
@@ -27,8 +37,23 @@ Theorem C09_scalar_meaning : forall (pubk : Z -> Z) (ecdh : Z -> Z -> Z) (p : pr
          (owned_idx sec (ps_out ps) 0) bl.
 Proof. exact scalar_meaning. Qed.
 
+(* beyond the limit a non-last blinder that has an output to blind (and three scalars to draw) is refused at its first output:
+   the surjection targets are collected, then Asset::blind returns Upstream(CannotProveSurjection) — so the premise on the
+   surjection domain in the two theorems around this one cannot be dropped *)
+Theorem C09_domain_limit_non_last : forall (pubk : Z -> Z) (ecdh : Z -> Z -> Z) (p : profile)
+  (ins : list pin) (SS : list secrets) (utxos : list txout),
+  Forall3 in_ok ins SS utxos -> issuances_unblinded ins ->
+  (CT_SURJECTIONPROOF_MAX_N_INPUTS < N.of_nat (length (all_ss ins SS)))%N ->
+  forall ps sec rnd, ps_in ps = ins -> sec_ok SS sec -> indices_ok (length ins) (ps_out ps) ->
+  (forall i, In i (owned_idx sec (ps_out ps) 0) -> exists o, nth_error (ps_out ps) i = Some o /\ pgood (party_tg ins sec) o) ->
+  (3 <= length rnd)%nat ->
+  forall i0 rest, owned_idx sec (ps_out ps) 0 = i0 :: rest ->
+  blind_non_last pubk ecdh p ps sec rnd = OFail (PConfidentialTxOutError i0 BCannotProveSurjection).
+Proof. exact non_last_over_limit. Qed.
+
 (* a valid assignment (`flow_ok`: parties own disjoint inputs covering all inputs with their true secrets, every output is explicit
-   or assigned to exactly one party that can blind it, every party has an output, amounts balance per asset, enough randomness):
+   or assigned to exactly one party that can blind it, every party has an output, amounts balance per asset, enough randomness)
+   on a PSET whose surjection domain is within the limit of Asset::blind:
    for EVERY order sigma of the non-last parties, then the last one, with a hop between the steps — the flow succeeds, the scalar
    list ends empty, the extracted transaction verifies against the input UTXOs, and every marked output is fully blinded,
    unblinds with its receiver key to the original asset and amount with factors that reproduce its commitments, and carries
@@ -36,6 +61,7 @@ Proof. exact scalar_meaning. Qed.
 Theorem C09_any_order : forall (pubk : Z -> Z) (ecdh : Z -> Z -> Z) (p : profile)
   (ins : list pin) (SS : list secrets) (utxos : list txout),
   Forall3 in_ok ins SS utxos -> issuances_unblinded ins ->
+  (N.of_nat (length (all_ss ins SS)) <= CT_SURJECTIONPROOF_MAX_N_INPUTS)%N ->
   forall outs0 : list pout, indices_ok (length ins) outs0 ->
   forall hop : pset -> pset, (forall ps, hop ps = ps) ->
   forall (l : list party) (L : party), flow_ok ins SS outs0 l L ->
@@ -54,8 +80,8 @@ Theorem C09_any_order : forall (pubk : Z -> Z) (ecdh : Z -> Z -> Z) (p : profile
            /\ (exists a v g c bvp bap, po_asset o = Some a /\ po_amount o = Some v /\ po_asset_comm o = Some g /\ po_amount_comm o = Some c
                  /\ po_bvp o = Some bvp /\ po_bap o = Some bap /\ blind_value_proof_verify bvp v g c = true /\ blind_asset_proof_verify bap a g = true).
 Proof.
-  intros pubk ecdh p ins SS utxos INS ISS outs0 IDX hop HOP l L OK SYM sigma PM.
-  exact (flow_verifies pubk ecdh p ins SS utxos INS ISS outs0 IDX hop HOP sigma L (flow_ok_perm ins SS outs0 l sigma L PM OK) SYM).
+  intros pubk ecdh p ins SS utxos INS ISS DOM outs0 IDX hop HOP l L OK SYM sigma PM.
+  exact (flow_verifies pubk ecdh p ins SS utxos INS ISS DOM outs0 IDX hop HOP sigma L (flow_ok_perm ins SS outs0 l sigma L PM OK) SYM).
 Qed.
 
 (* ------------------------------------------------------------------ non-vacuity: a concrete three-party flow
@@ -85,14 +111,15 @@ Definition x_result (sigma : list party) :=
 Example C09_example_run : exists vbf, x_result [x_A; x_C] = Some ([], OVal tt, [vbf]) /\ x_result [x_C; x_A] = Some ([], OVal tt, [vbf]).
 Proof. eexists. vm_compute. split; reflexivity. Qed.
 Example C09_example_hypotheses :
-  Forall3 in_ok x_ins x_SS x_utxos /\ issuances_unblinded x_ins /\ indices_ok (length x_ins) x_outs /\ flow_ok x_ins x_SS x_outs [x_A; x_C] x_B.
+  Forall3 in_ok x_ins x_SS x_utxos /\ issuances_unblinded x_ins /\ indices_ok (length x_ins) x_outs /\ flow_ok x_ins x_SS x_outs [x_A; x_C] x_B
+  /\ (N.of_nat (length (all_ss x_ins x_SS)) <= CT_SURJECTIONPROOF_MAX_N_INPUTS)%N.
 Proof.
   assert (QN : forall x, 0 < x < 2 ^ 64 -> 0 < x < qn) by (intros x H; pose proof qn_big; lia).
   assert (POK : forall (P : party) i a rk v sc b, nth_error x_outs i = Some (x_out a v sc (Some rk) b) -> 1 <= v <= I64_MAX ->
             (exists ad, from_script sc = Script.Val (Some ad)) -> holds_tg (party_tg x_ins (fst P)) a ->
             exists o, nth_error x_outs i = Some o /\ pgood (party_tg x_ins (fst P)) o).
   { intros P i a rk v sc b N R AD H. eexists. split; [exact N|]. exists a, v, rk. cbn. repeat split; try assumption; try apply R. }
-  split; [|split; [|split]].
+  split; [|split; [|split; [|split]]]; [| | | |vm_compute; discriminate].
   - apply Forall3_cons; [|apply Forall3_cons; [|apply Forall3_cons; [|apply Forall3_nil]]];
       (split; [reflexivity|split; [|split; [|split; left; reflexivity]]]).
     + left. split; reflexivity. + left. repeat split; try reflexivity; apply QN; split; reflexivity.
@@ -130,6 +157,7 @@ Qed.
 Check (C09_any_order : forall (pubk : Z -> Z) (ecdh : Z -> Z -> Z) (p : profile)
   (ins : list pin) (SS : list secrets) (utxos : list txout),
   Forall3 in_ok ins SS utxos -> issuances_unblinded ins ->
+  (N.of_nat (length (all_ss ins SS)) <= CT_SURJECTIONPROOF_MAX_N_INPUTS)%N ->
   forall outs0 : list pout, indices_ok (length ins) outs0 ->
   forall hop : pset -> pset, (forall ps, hop ps = ps) ->
   forall (l : list party) (L : party), flow_ok ins SS outs0 l L ->
@@ -147,5 +175,7 @@ Check (C09_any_order : forall (pubk : Z -> Z) (ecdh : Z -> Z -> Z) (p : profile)
            /\ o_asset tj = AConf (sgen s) /\ o_value tj = VConf (scommit s)
            /\ (exists a v g c bvp bap, po_asset o = Some a /\ po_amount o = Some v /\ po_asset_comm o = Some g /\ po_amount_comm o = Some c
                  /\ po_bvp o = Some bvp /\ po_bap o = Some bap /\ blind_value_proof_verify bvp v g c = true /\ blind_asset_proof_verify bap a g = true)).
+Print Assumptions C09_party_domain_size.
 Print Assumptions C09_scalar_meaning.
+Print Assumptions C09_domain_limit_non_last.
 Print Assumptions C09_any_order.
